@@ -13,6 +13,9 @@ T = {
  "C01": dict(tech="TLA+ API state machine (BPPApi.tla) model-checked by TLC; every TLC behaviour replayed on the library (Ristretto + free-module group)",
              text="TLC enumerates the configuration lattice (bit length x aggregation x capacity x degree x value/promise classes x seed x RNG model x mode) as behaviours of the API machine and checks completeness as an invariant of the specification; each behaviour is then executed on the real library over Ristretto and over the free-module group and must give the predicted outcome class and masks.",
              ref="§6 C01"),
+ "C02": dict(tech="TLC: code-shaped verifier == published relation over GF(p) (MC_Algebra, seeded-bug negatives); TLC trace validation of the library's final-MSM scalars against the published relation in 252-bit arithmetic (TraceVerify/BigField)",
+             text="(a) TLC proves, exhaustively over small prime fields, that the code-shaped verifier (batched inverses, s recurrence, d by doubling, d_sum squaring trick, geometric y_sum, padding) equals weight x the published recursive zk-WIP relation on every symbol, and catches seeded coefficient bugs. (b) The unmodified library runs over a free-module group so every scalar it hands to its final multiscalar multiplication is recorded; TLC recomputes the published relation at the recorded Fiat-Shamir challenges in Z_l (BigField.tla) and requires equality on every generator, proof element and commitment, zero padding, nothing extra, and verdict == (result is identity) - for honest, altered, aggregated, promised and mixed-capacity batches. (c) every single alteration is replayed for verdict agreement.",
+             ref="§6 C02"),
  "C03": dict(tech="TLA+ model of verify_batch orchestration (chunk loop, consistency, result vector) checked by TLC with negative configs; behaviours replayed at model scale and with chunks expanded to the real 256",
              text="The chunk loop of verify_batch is a spec action with MaxBatch a constant; TLC checks verdict == conjunction, k aligned results and the refusal cases for every assignment of valid/invalid/disagreeing members up to 3*MaxBatch+1, and must find the violation in the two seeded-bug configurations (first chunk only; loop without whole-batch consistency). Every behaviour is replayed on the library, and again with each model chunk expanded to 256 real members so the real chunk boundaries are hit.",
              ref="§6 C03"),
